@@ -169,6 +169,27 @@ def run(rng, tier, model_ok):
         cases.append((6, qcorr.encode_units(r["names"]), unhex(r["cbor"])))
         cases.append((7, unhex(r["cbor"]), [1] + qcorr.encode_units(r["names"])))
     samples.append({"unit": texts[-1], "cbor": crep[-1].get("cbor")})
+    # whole constants (the record the data files and the index store: words, description, source, value, unit) with every unit
+    # expression above, alone and next to a second unit: a record written must be a record that reads back
+    ctexts = list(texts)
+    for v in sorted(V.names):
+        w = V.names[v][0]
+        ctexts += [w + "/km", "J/kg*" + w, w + "*s^-1", w + "^2", "1/" + w]
+    cvals = [(1, 1), (-13, 2), (0, 1), (2 ** 70 + 1, 3 ** 20)]
+    clines = []
+    for j, t in enumerate(ctexts):
+        n, d = cvals[j % len(cvals)]
+        clines.append("C c %s %d %d %s %s %s" % (vlib.hx(t), n, d, ("-", "0", "7", str(2 ** 63))[j % 4], vlib.hx(("lapse rate", "x", "", "mass of earth")[j % 4]),
+                                                 vlib.hx(("Some constant", "", "Ünïcode ° description")[j % 3])))
+    ccrep = vlib.run_impl(clines)
+    stats["whole_constants"] = 0
+    for t, r in zip(ctexts, ccrep):
+        if "names" not in r:
+            continue
+        stats["whole_constants"] += 1
+        for kind in ("cbor",):            # (JSON is claimed for rationals only: a derived unit is no JSON map key)
+            if r.get(kind + "_same") is not True:
+                failures.append({"input": t, "why": "a constant with the unit `%s` does not survive %s: %s" % (t, kind.upper(), r.get(kind + "_back_err") or r.get(kind + "_err") or "decodes to another constant")})
     # the same unit expressions with the entries of their maps in another order (the index stores them re-encoded in canonical CBOR
     # order, other writers may use any order): what they decode to does not depend on it
     perm = []
